@@ -106,10 +106,8 @@ def unique_index_set(F, R):
     if not lsites:
         R.ob('ONLY-UNDER', key, False, 'anchor-missing: LOCK_ACQUIRE not used in release_raw_index', rel.file, rel)
     for ls in lsites:
-        conds = []
-        for (b, tgt) in lib.guard_switches(rel, ls):
-            conds.append(sym_nstr(sym(rel, rel.blocks[b]['t'][1])))
-        ok = any('borrowed_indices' in c and '1' in c for c in conds) and any('LockIfLastIndex' in c for c in conds)
+        conds = lib.path_conds(rel, ls, F)
+        ok = any(re.search(r'borrowed_indices == 1\)$', c) for c in conds) and any(('LockIfLastIndex' in c and ('==' in c or ' is ' in c) and '!=' not in c) for c in conds)
         R.ob('ONLY-UNDER', key, ok, 'LOCK_ACQUIRE is selected under conditions %s; required mode == LockIfLastIndex && borrowed_indices == 1' % conds, ls.where, rel)
 
 
@@ -177,9 +175,9 @@ def robust(F, R):
     ok = False
     detail = 'no SetState built after the increment'
     for a in scan_aggs:
-        conds = [sym_nstr(sym(bi, bi.blocks[b]['t'][1])) for (b, tgt) in lib.guard_switches(bi, a)]
+        conds = lib.path_conds(bi, a, F)
         detail = 'scan result returned under %s' % conds
-        ok = any('==' in c and 'increment_generation_counter(' in c and re.search(r'\(Atomic::load\(self\.generation_counter[^)]*\) \+ 1\)|\(1 \+ Atomic::load\(self\.generation_counter', c) for c in conds)
+        ok = any(' == ' in c and 'increment_generation_counter(' in c and re.search(r'\(Atomic::load\(self\.generation_counter[^)]*\) \+ 1\)|\(1 \+ Atomic::load\(self\.generation_counter', c) for c in conds)
     R.ob('ONLY-UNDER', 'ONLY-UNDER::%s::scan-accepted-only-if-generation-advanced-by-one' % fnkey(bi), ok, detail, scan_aggs[0].where if scan_aggs else bi.file, bi)
     # lock(): CAS to the lock indicator only under borrowed_indices == 0, expected = generation of the same scan
     lock = F.fn(RU + 'lock')
@@ -188,8 +186,8 @@ def robust(F, R):
     if len(lc) != 1:
         R.ob('ONLY-UNDER', key, False, 'anchor-missing: lock CAS', lock.file, lock)
     else:
-        conds = [sym_nstr(sym(lock, lock.blocks[b]['t'][1])) for (b, tgt) in lib.guard_switches(lock, lc[0].site)]
-        R.ob('ONLY-UNDER', key, any('borrowed_indices' in c and '== 0' in c or ('borrowed_indices' in c and '0 ==' in c) for c in conds),
+        conds = lib.path_conds(lock, lc[0].site, F)
+        R.ob('ONLY-UNDER', key, any(re.search(r'borrowed_indices == 0\)$', c) for c in conds),
              'lock CAS guarded by %s; required state.borrowed_indices == 0' % conds, lc[0].site.where, lock)
         exp = sym_nstr(sym(lock, lc[0].site.args[1]))
         new = sym_nstr(sym(lock, lc[0].site.args[2]))
@@ -202,8 +200,8 @@ def robust(F, R):
     incs = acq.calls(inc_pat)
     dom(R, acq, incs, oks, 'increment<Ok(n)', 'an index is handed out only after its generation bump was accepted')
     for o in oks:
-        conds = [sym_nstr(sym(acq, acq.blocks[b]['t'][1])) for (b, tgt) in lib.guard_switches(acq, o)]
-        ok_ = any('increment_generation_counter(' in c and ('18446744073709551615' in c or 'LOCK_INDICATOR' in c) and '==' in c for c in conds)
+        conds = lib.path_conds(acq, o, F)
+        ok_ = any('increment_generation_counter(' in c and ('18446744073709551615' in c or 'LOCK_INDICATOR' in c) and ' != ' in c for c in conds)
         R.ob('ONLY-UNDER', 'ONLY-UNDER::%s::Ok(n)-only-if-increment-not-locked' % fnkey(acq), ok_,
              'Ok(n) is returned under %s ; required a test of the increment result against GENERATION_COUNTER_LOCK_INDICATOR (after the last release locked the set no acquire may succeed)' % [c[:110] for c in conds if 'increment' in c or 'LOCK' in c or '1844' in c], o.where, acq)
         locked = lib.agg_sites(acq, r'UniqueIndexSetAcquireFailure$', 'IsLocked')
